@@ -284,8 +284,20 @@ pub fn compare(reference: &Outcome, other: &Outcome) -> Option<(String, String)>
         for x in &sa {
           if !sb.contains(x) {
             let k = block_kind(x);
-            let sig = if k == "NonExhaustiveMatch" { format!("diagnostics|counterexample_choice|{k}") } else { format!("diagnostics|list_order|{k}") };
-            return Some((sig, format!("same diagnostic up to the order / choice of listed names:\n{x}")));
+            // the recorded findings (F7) can only swap or choose among names of 16 bytes or more
+            let cx = canonical_block(x);
+            let counterpart = sb.iter().find(|y| !sa.contains(*y) && canonical_block(y) == cx);
+            let f7 = counterpart.map(|y| simcore::explained_by_order_of_long_names(x, y)).unwrap_or(false);
+            let what = match (k == "NonExhaustiveMatch", f7) {
+              (true, true) => "counterexample_choice",
+              (true, false) => "counterexample_choice_not_by_long_names",
+              (false, true) => "list_order",
+              (false, false) => "list_order_not_by_long_names",
+            };
+            return Some((
+              format!("diagnostics|{what}|{k}"),
+              format!("same diagnostic up to the order / choice of listed names:\n{x}\n--- the other configuration prints ---\n{}", counterpart.cloned().unwrap_or_default()),
+            ));
           }
         }
       }
